@@ -4,6 +4,7 @@ import (
 	"crypto/tls"
 	"encoding/json"
 	"fmt"
+	"gopkg.in/yaml.v3"
 	"reflect"
 	"strconv"
 	"strings"
@@ -53,9 +54,16 @@ func Canon(kind, text string) (string, error) {
 	case KString, KAnyString:
 		return text, nil
 	case KInt, KAnyInt:
-		n, err := strconv.Atoi(text)
+		// what the text means in a YAML document (04455 is octal, 0x1195 hexadecimal, 4_501 has a separator)
+		var doc struct {
+			V int `yaml:"v"`
+		}
 
-		return strconv.Itoa(n), err
+		if err := yaml.Unmarshal([]byte("v: "+text), &doc); err != nil {
+			return "", err
+		}
+
+		return strconv.Itoa(doc.V), nil
 	case KBool, KAnyBool:
 		b, err := strconv.ParseBool(text)
 
